@@ -64,6 +64,24 @@ def run(ctx):
             allowed = '(fun q => match q with [i; j; k; l] => Nat.eqb (Nat.lxor (Nat.lxor (Nat.modulo i %d) (Nat.modulo j %d)) (Nat.lxor (Nat.modulo k %d) (Nat.modulo l %d))) 0 | _ => false end)' % ((2 ** ns,) * 4)
             e = guarded('pws_symmetric', rp, lambda: '(pws_sym_ok %s %s %s)' % (cnl(lab), allowed, cpairings(ps)))
             if e: add('pws_symmetric', e, rp, key=(nf, ns))
+    # _asynchronous_iter (all pairs between K lists of length L) and _get_padding, complete small ranges
+    for K in range(2, N(10, 15)):
+        for L in range(1, N(7, 10)):
+            lists = [[100 * k + i for i in range(L if (k + L) % 3 else max(1, L - 1))] for k in range(K)]
+            rp = {'call': '_asynchronous_iter', 'num_lists': K, 'list_length': L}
+            def flat(o):
+                if isinstance(o, (tuple, list)): return [y for x in o for y in flat(x)]
+                return [] if o is None else [o]
+            outs = guarded('asynchronous_iter', rp, lambda: [flat(o) for o in fp._asynchronous_iter([iter(l) for l in lists])])
+            if outs is None: continue
+            lit = '(' + clist([cnl(o) for o in outs]) + ' : list (list nat))'
+            add('asynchronous_iter', '(async_ok %s %s)' % ('(' + clist([cnl(l) for l in lists]) + ' : list (list nat))', lit), rp, key=(K, L))
+    rows = []
+    for nb in range(2, N(14, 20)):
+        for bs in range(1, N(14, 30)):
+            rows.append('padding_ok %s %s %s' % (cnat(nb), cnat(bs), cnat(fp._get_padding(nb, bs))))
+    for j in range(0, len(rows), 120):
+        add('get_padding', '(forallb (fun b : bool => b) %s)' % clist(['(' + r + ')' for r in rows[j:j + 120]]), {'call': '_get_padding', 'rows': rows[j:j + 2]}, key=j)
     # partition iterators and pauli_string_iterator
     for n in range(2, N(13, 21)):
         for k in range(1, min(n, 4) + 1):
